@@ -238,6 +238,44 @@ func c04Build(preamble, eol string, revs []c04Rev) *c04File {
 			b.WriteString(eol + "endstream" + eol + "endobj" + eol)
 			maxNum = num
 		} else {
+			if rev.hybridTo {
+				// hybrid file: objects with numbers >= 5 are listed only in a cross-reference
+				// stream that the classic trailer points to with /XRefStm
+				num := size
+				size++
+				trailer = fmt.Sprintf("/Size %d /Root 1 0 R /Rev %d %s", size, ri, rev.trailer)
+				if prev >= 0 {
+					trailer += fmt.Sprintf(" /Prev %d", prev)
+				}
+				var rows bytes.Buffer
+				var index []string
+				var visible []uint32
+				for _, n := range all {
+					if n < 5 {
+						visible = append(visible, n)
+						continue
+					}
+					e := ents[n]
+					tp := byte(1)
+					if e.kind == 'f' {
+						tp = 0
+					}
+					rows.Write([]byte{tp, byte(e.pos >> 16), byte(e.pos >> 8), byte(e.pos), byte(e.gen)})
+					index = append(index, fmt.Sprintf("%d 1", n))
+				}
+				stmPos := b.Len() - hdr
+				fmt.Fprintf(&b, "%d 0 obj%s<</Type/XRef /Size %d /W [1 3 1] /Index [%s] /Length %d>>%sstream\n", num, eol, size, strings.Join(index, " "), rows.Len(), eol)
+				b.Write(rows.Bytes())
+				b.WriteString(eol + "endstream" + eol + "endobj" + eol)
+				ents[num] = ent{'n', stmPos, 0}
+				visible = append(visible, num)
+				state[num] = "<xref stream>"
+				maxNum = num
+				all = visible
+				sort.Slice(all, func(i, j int) bool { return all[i] < all[j] })
+				trailer += fmt.Sprintf(" /XRefStm %d", stmPos)
+				xrefPos = b.Len() - hdr
+			}
 			b.WriteString("xref" + eol)
 			line := func(n uint32) {
 				e := ents[n]
@@ -324,7 +362,7 @@ func TestB2C04Files(t *testing.T) {
 	n := 0
 	for _, pre := range []string{"", "x", "HTTP/1.1 200 OK\r\n\r\n", strings.Repeat("junk\n", 150)} {
 		for _, eol := range []string{"\n", "\r\n", "\r"} {
-			for variant := 0; variant < 8; variant++ {
+			for variant := 0; variant < 10; variant++ {
 				var revs []c04Rev
 				switch variant {
 				case 0:
@@ -341,6 +379,10 @@ func TestB2C04Files(t *testing.T) {
 					revs = []c04Rev{{objs: base, xrefStm: true, w: [3]int{1, 2, 2}, split: true}, {objs: map[uint32]string{4: "(4b)", 10: "true"}, xrefStm: true, w: [3]int{0, 4, 0}, split: true}}
 				case 6:
 					revs = []c04Rev{{objs: base}, {objs: map[uint32]string{4: "(revived)"}, gens: map[uint32]uint16{4: 0}, free: nil}, {free: []uint32{4}}, {objs: map[uint32]string{4: "(again)"}, gens: map[uint32]uint16{4: 1}}}
+				case 8:
+					revs = []c04Rev{{objs: base, hybridTo: true}}
+				case 9:
+					revs = []c04Rev{{objs: base}, {objs: map[uint32]string{3: "(3 hybrid)", 7: "(7 hidden)", 12: "12"}, hybridTo: true}}
 				case 7:
 					// streams whose /Length is missing, wrong or an unresolvable reference
 					revs = []c04Rev{{objs: map[uint32]string{1: cat, 2: pages,
